@@ -73,4 +73,24 @@ def optsW2 : Serde.ProofOptions := ⟨1, 2, 0, 1, 2, 3⟩
     coefficients (no grinding: with the identity permutation the nonce search does not terminate early) -/
 def optsW3 : Serde.ProofOptions := ⟨2, 2, 0, 2, 2, 3⟩
 
+/-- prove (with the auxiliary generation rules `gens`), then verify: as `proveThenVerify` -/
+def proveThenVerifyG (J : Inst) (d : Desc) (gens : List AuxGen) (trace : List (List Nat)) (o : Serde.ProofOptions) : Bool :=
+  match refProve J d trace o gens with
+  | .ok bs => refVerify J d (refPubInputs J d trace) (.optionSet [o]) bs == .ok
+  | .error _ => false
+
+/-- two main columns (x -> x + 7 and a free one) and an AUXILIARY SEGMENT of one column with one random element: the
+    running product z' = z·(c0 + r0), z_0 = 1 (constraint of degree 2, first auxiliary cell asserted to be 1)
+    (`w=2;l=8;e=1;p=;t=1:-n0+c0k7;a=s0.0;x=1.1.0;h=Ak1:*a0+c0r0;u=2:-b0*a0+c0r0;b=s0.0=k1`) -/
+def descAux8 : Desc where
+  air := ⟨2, 8, 1, [], [.sub (.nxt 0) (.add (.cur 0) (.const 7))], [⟨.single, 0, 0, 0⟩]⟩
+  degs := [⟨1, []⟩]
+  aux := some ⟨1, 1, [.sub (.anxt 0) (.mul (.acur 0) (.add (.cur 0) (.rand 0)))], [⟨2, []⟩],
+    [(⟨.single, 0, 0, 0⟩, .const 1)], false⟩
+
+/-- the generation rule of its auxiliary column (`A k1 : * a0 + c0 r0`) -/
+def gensAux8 : List AuxGen := [.acc (.const 1) (.mul (.acur 0) (.add (.cur 0) (.rand 0)))]
+
+def traceAux8 : List (List Nat) := [[1, 8, 15, 22, 29, 36, 43, 50], [5, 4, 3, 2, 1, 0, 9, 8]]
+
 end WinterProofs.C01Prover
